@@ -21,8 +21,8 @@ for sid, info in DETECT.items():
         m0 = re.search(r"== demo on unchanged tree\nrc=(\d+)", t)
         m1 = re.search(r"== demo on changed tree\nrc=(\d+)", t)
         ran.append("demo.py on the unchanged tree: exit %s (PASS); with patch.diff applied: exit %s (FAIL)" % (m0.group(1) if m0 else "?", m1.group(1) if m1 else "?"))
-        ran.append("pytest -n 4 tests --ignore=tests/xintegration on the changed tree: same failing/erroring test ids as the unchanged tree "
-                   "(apart from tests/test_imphooks.py, flaky under xdist on both trees)")
+        ran.append(info.get("suite_note") or ("pytest -n 4 tests --ignore=tests/xintegration on the changed tree: same failing/erroring test ids as the unchanged tree "
+                   "(apart from tests/test_imphooks.py, flaky under xdist on both trees)"))
     ran.extend(info.get("ran_extra", []))
     meta = {"id": sid, "property": prop, "breaks": info["breaks"], "needs_to_manifest": info["needs"],
             "author": "independent sub-agent given only the property text and a scratch worktree",
